@@ -40,6 +40,10 @@ func genCfg(r *Run, odd bool, i int) hCfg {
 		Logout:      rng.Intn(3) != 0, LogoutPath: pick(rng, []string{"/logout", "/app/logout"}), LogoutURI: pick(rng, []string{"https://idp.example.com/logout", "https://idp.example.com/end?x=1&y=2"}),
 		Store:       pick(rng, []string{"mem", "mem", "redis"}),
 	}
+	if rng.Intn(8) == 0 {
+		// "for all header/preamble configurations": the same header name for both tokens loads fine
+		c.Access, c.AccHeader = true, c.IDHeader
+	}
 	if rng.Intn(4) == 0 {
 		c.Abs, c.Idle = pick(rng, []time.Duration{0, 300 * time.Second}), pick(rng, []time.Duration{0, 100 * time.Second})
 	}
@@ -49,6 +53,15 @@ func genCfg(r *Run, odd bool, i int) hCfg {
 		c.CallbackURI = pick(rng, []string{"https://app.example.com/call%20back", "https://app.example.com/cb?x=1&y=%26", "https://app.example.com/callback", "https://xn--bcher-kva.example/é/callback"})
 		c.AuthURI = pick(rng, []string{"https://idp.example.com/authorize", "https://idp.example.com/auth?tenant=acme%26co&x=%3D", "https://idp.example.com/auth?", "https://idp.example.com/a%20b/auth?q=é"})
 		c.IDPreamble = pick(rng, []string{"Bearer", "", "Be arer"})
+		// every prefix the real loader accepts is fair game ("for all cookie-name prefixes"); one it rejects cannot reach a
+		// running service and is replaced
+		c.Prefix = pick(rng, []string{"app.1", "A~b!", "x;y", "a b", "a=b", "x; Domain=evil.example", "ü", "tab\tbed", "p|q^r", "$%&'*+-.^_`|~", "(x)"})
+		if !loaderAcceptsPrefix(c.Prefix) {
+			r.Dist["prefix:rejected-by-loader"]++
+			c.Prefix = "app1"
+		} else {
+			r.Dist["prefix:odd-accepted"]++
+		}
 	}
 	return c
 }
